@@ -372,6 +372,20 @@ class Emitter:
             if e.kind == 'scalar': mac += '\nCC_DEFINE_VEC_SCALAR(%s,%s,%s)' % (cn, e.c, cap)
             self.containers.setdefault(cn, mac)
             return Ty('vec', cn, elem=e, ref=ref, const=const)
+        m = re.fullmatch(r'std::(?:__cxx11::)?list<(.*)>', q)
+        if m:
+            args = split_targs(m.group(1)); e = self._ty(args[0])
+            if e.kind != 'scalar': raise Unsupported('std::list of non-scalar ' + q)
+            cn = 'list_' + cident(e.c)
+            cap = self.u.get('caps', {}).get(cn, self.u.get('caps', {}).get('default', 'CC_CAP'))
+            self.containers.setdefault(cn, 'CC_DEFINE_VEC(%s,%s,%s)\nCC_DEFINE_VEC_SCALAR(%s,%s,%s)' % (cn, e.c, cap, cn, e.c, cap))
+            t = Ty('vec', cn, elem=e, ref=ref, const=const); t.is_list = True; return t
+        m = re.fullmatch(r'std::_List_(const_)?iterator<(.*)>', q)
+        if m:
+            e = self._ty(m.group(2)); cn = 'list_' + cident(e.c)
+            cap = self.u.get('caps', {}).get(cn, self.u.get('caps', {}).get('default', 'CC_CAP'))
+            self.containers.setdefault(cn, 'CC_DEFINE_VEC(%s,%s,%s)\nCC_DEFINE_VEC_SCALAR(%s,%s,%s)' % (cn, e.c, cap, cn, e.c, cap))
+            return Ty('iter', 'size_t', elem=Ty('vec', cn, elem=e), ref=ref, const=const)
         m = re.fullmatch(r'std::unordered_set<(.*)>', q)
         if m:
             args = split_targs(m.group(1)); e = self.ty(args[0])
